@@ -543,7 +543,17 @@ fn exec(w: &Mutex<World>, call: &Value) -> Res {
                 let sz = std::mem::size_of::<storm::SFILE_FIND_DATA>();
                 let mut fd = Guarded::new(sz + 8);
                 let p = fd.ptr().add(fd.ptr().align_offset(8)) as *mut storm::SFILE_FIND_DATA;
-                let mask = CString::new("*").unwrap();
+                // mask classes (the model's MaskMatch): the `name` argument selects the search mask
+                let mask = CString::new(match name {
+                    "m1" => "*.*",
+                    "m2" => "*.bin",
+                    "m3" => "data\\*",
+                    "m4" => "data\\?0.bin",
+                    "m5" => "data\\f2.bin",
+                    "m6" => "zz*",
+                    "m7" => "D\\*",
+                    _ => "*",
+                }).unwrap();
                 let hv = storm::SFileFindFirstFile(hp, mask.as_ptr(), p, std::ptr::null());
                 r.err = last_err();
                 r.canary = fd.intact();
